@@ -473,7 +473,7 @@ example : TrigOK (⟨Real.cos, Real.sin, Real.arcsin, Real.arccos, fun y x => Co
 /-! ## the hypotheses are satisfiable -/
 
 /-- the rationals with `|·|` and `<` satisfy the pivot-search laws -/
-example : CmpOK (⟨fun x => |x|, fun a b => decide (a < b), fun x => x⟩ : Cmp ℚ) :=
+example : CmpOK (⟨fun x => |x|, fun a b => decide (a < b), fun x => x, fun x => decide (x = 0)⟩ : Cmp ℚ) :=
   ⟨fun x => by simp, fun y x h => by
     simp only [decide_eq_true_eq] at h
     intro e; rw [e, abs_zero] at h; exact absurd h (not_lt.mpr (abs_nonneg y))⟩
